@@ -15,10 +15,12 @@ pub fn run(rep: &Report) -> bool {
         "C07" => props::c07::run(rep),
         "C10" => props::c10::run(rep),
         "C11" => props::c11::run(rep),
+        "C12" => props::c12::run(rep),
         "C13" => props::c13::run(rep),
         "C14" => props::c14::run(rep),
         "C16" => props::c16::run(rep),
         "C17" => props::c17::run(rep),
+        "C18" => props::c18::run(rep),
         "C19" => props::c19::run(rep),
         "C20" => props::c20::run(rep),
         _ => return false,
@@ -67,10 +69,12 @@ pub fn replay(rep: &Report, path: &str) -> i32 {
         "C07" => props::c07::replay(rep, &stage, &j),
         "C10" => props::c10::replay(rep, &stage, &j),
         "C11" => props::c11::replay(rep, &stage, &j),
+        "C12" => props::c12::replay(rep, &stage, &j),
         "C13" => props::c13::replay(rep, &stage, &j),
         "C14" => props::c14::replay(rep, &stage, &j),
         "C16" => props::c16::replay(rep, &stage, &j),
         "C17" => props::c17::replay(rep, &stage, &j),
+        "C18" => props::c18::replay(rep, &stage, &j),
         "C19" => props::c19::replay(rep, &stage, &j),
         "C20" => props::c20::replay(rep, &stage, &j),
         _ => {
